@@ -213,7 +213,7 @@ ALL_OPS = {"append", "import", "remove", "setnow", "gcstep", "drain", "reopen", 
 READS = {"readsync", "read", "get", "head"}
 
 P_CTX = dict(op_w={"register": 5, "append": 8, "import": 5, "remove": 5, "tick": 0.5, "gc": 1, "reopen": 3, "badctx": 1},
-             p_import_reg=0.5, p_import_collide=0.05, n_topics=3, w_lookalike=2,
+             p_import_reg=0.5, p_import_collide=0.05, p_import_flip=0.2, n_topics=3, w_lookalike=2,
              ttl_w={"-": 3, "forever": 2, "ephemeral": 2, "time": 1, "head": 1})
 P_GENERAL = dict()
 P_TOPICS = dict(op_w={"register": 2, "append": 12, "import": 4, "remove": 4, "tick": 1, "gc": 3, "reopen": 1, "badctx": 0.2},
@@ -314,6 +314,12 @@ def c20_run(ctx):
         for op, obs in S.parse_trace(rb["trace"]):
             if op[0] == "readsync" and op[1:] == ["-", "-", "-"]:
                 want = obs.split(" ")[3:]
+        # one frame the generated histories never hold: a meta record far larger than any buffer or "reasonable" body size
+        # (the library and the xs-meta header accept it, so a source store can hold it and its export must import)
+        big_id = (1 << 100) + 12345 + i
+        big_meta = json.dumps({"index": ["entry-%06d" % k for k in range(ctx.rnd.choice([6000, 20000]))], "k": "v"}, separators=(",", ":"))
+        order = list(order)
+        order.insert(ctx.rnd.randrange(len(order) + 1), ["import", "#%x" % big_id, "#0", S.xh("big.meta"), "-", S.xh(big_meta), "-"])
         srv = H.Server("api")
         try:
             bad = None
@@ -330,6 +336,12 @@ def c20_run(ctx):
             got = srv.dump()
             # (api::serve announces itself with an xs.start frame: not part of the import)
             got = [f for f in got if f.split(",")[2] != S.xh("xs.start")] if got is not None else None
+            big = [f for f in (got or []) if int(f.split(",")[0], 16) == big_id]
+            got = [f for f in got if int(f.split(",")[0], 16) != big_id] if got is not None else None
+            if got is not None and bad is None and (len(big) != 1 or big[0].split(",")[4] != S.xh(big_meta)) and worst is None:
+                worst = ("roundtrip", f"case {i} over HTTP", b_lines,
+                         dict(op=f"POST /import of a frame with a {len(big_meta)}-byte meta, then read", impl=f"{len(big)} such frame(s), meta "
+                              + ("differs" if big else "-"), spec="the frame, with its meta intact"))
         finally:
             srv.close()
         if bad is not None and worst is None:
@@ -1098,9 +1110,13 @@ def c12_run(ctx):
     nd = robust(lambda _sd: V.nu_deep_meta_probe(), "nu deep meta probe")(0)
     for v in nd["violations"]:
         ctx.violation(v["what"][:600], dict(engine="V", probe="nu_deep_meta_probe"))
+    dt = robust(V.definition_ttl_probe, "definition ttl probe")(ctx.rnd.randrange(1, 10 ** 9))
+    for v in dt["violations"]:
+        ctx.violation(v["what"][:600], dict(engine="V", probe="definition_ttl_probe"))
     st = r["stats"]
     st.update(rj["stats"])
     st["nu_deep_meta_probes"] = nd["probes"]
+    st["definition_ttl_probes"] = dt["probes"]
     st["http_boundary_probes"] = wb["probes"]
     ctx.coverage.update(dict(
         evaluations=sum(st[k] for k in ("ttl_values", "ttl_strings", "ttl_queries", "ro_values", "ro_queries", "json_texts", "frame_texts", "store_probes")),
